@@ -23,6 +23,7 @@ pub fn scenarios() -> Vec<Scenario> {
         scn!(scenario_every_key_package_source_enforces_threshold, 2),
         scn!(scenario_reconstruct_below_threshold, 2),
         scn!(scenario_sharing_polynomial_has_t_free_coefficients, 1),
+        scn!(scenario_stored_key_package_keeps_threshold, 2),
     ]
 }
 
@@ -298,6 +299,92 @@ pub fn scenario_sharing_polynomial_has_t_free_coefficients<C: Suite>(
                 );
             }
         }
+    }
+    Ok(())
+}
+
+/// An honest signer keeps its key package in storage (JSON or the binary form) and loads it before signing.  Whatever the
+/// stored document looks like after an accident - one member missing, the tail cut off - a key package that DOES load never
+/// carries a threshold below the one the group was generated with, and its holder refuses a signing package that lists fewer
+/// than threshold-many participants.  (The intact document is loaded as well.)  Key package from key generation, dealer refresh
+/// or repair.
+pub fn scenario_stored_key_package_keeps_threshold<C: Suite>(rng: &mut TestRng, p: &Params, notes: &mut Notes) -> Verdict {
+    let keys = keygen::<C>(rng, p, false)?;
+    let who = match keys.ids.get(rng.below(keys.ids.len())) {
+        Some(i) => *i,
+        None => return skip("internal"),
+    };
+    let original = match keys.key_packages.get(&who) {
+        Some(k) => k.clone(),
+        None => return skip("internal"),
+    };
+    let helpers: Vec<Id<C>> = keys.ids.iter().filter(|i| **i != who).copied().collect();
+    let source = ["keygen", "keygen", "refresh-dealer", "repair"][rng.below(4)];
+    let kp: KeyPackage<C> = match source {
+        "refresh-dealer" => {
+            let (shares, _) = need(refresh::compute_refreshing_shares::<C, _>(keys.pubkeys.clone(), &keys.ids, rng), "compute_refreshing_shares")?;
+            match shares.into_iter().find(|s| *s.identifier() == who) {
+                Some(s) => need(refresh::refresh_share::<C>(s, &original), "refresh_share")?,
+                None => return skip("no refreshing share"),
+            }
+        }
+        "repair" if helpers.len() >= p.t as usize => {
+            let sigmas = repair_parts_1_2::<C>(rng, &helpers, &keys.key_packages, who, false, false)?;
+            need(repairable::repair_share_part3::<C>(&sigmas, who, &keys.pubkeys), "repair_share_part3")?
+        }
+        _ => original,
+    };
+    notes.insert("key_package_source".into(), json!(source));
+    notes.insert("participant_hex".into(), json!(id_hex::<C>(&who)));
+    // the documents: intact, one member deleted (top level and header), binary form cut short
+    let mut loaded: Vec<(String, KeyPackage<C>)> = Vec::new();
+    let intact = need(serde_json::to_value(&kp), "to_value")?;
+    if let Ok(k) = serde_json::from_value::<KeyPackage<C>>(intact) {
+        loaded.push(("the intact JSON document".into(), k));
+    }
+    let mut tried = 1;
+    for (member, doc) in crate::c12::json_with_one_member_deleted(&kp) {
+        tried += 2;
+        let text = doc.to_string();
+        if let Ok(k) = serde_json::from_value::<KeyPackage<C>>(doc) {
+            loaded.push((format!("a JSON document without its `{member}` member (from_value)"), k));
+        }
+        if let Ok(k) = serde_json::from_str::<KeyPackage<C>>(&text) {
+            loaded.push((format!("a JSON document without its `{member}` member (from_str)"), k));
+        }
+    }
+    let bin = need(kp.serialize(), "KeyPackage::serialize")?;
+    for cut in 1..=4usize.min(bin.len()) {
+        tried += 1;
+        if let Ok(k) = KeyPackage::<C>::deserialize(bin.get(..bin.len() - cut).unwrap_or(&[])) {
+            loaded.push((format!("the binary form with the last {cut} byte(s) missing"), k));
+        }
+    }
+    notes.insert("documents_tried".into(), json!(tried));
+    notes.insert("documents_that_load".into(), json!(loaded.iter().map(|l| l.0.clone()).collect::<Vec<_>>()));
+    // a package listing m < t participants, this signer among them
+    let m = rng.range(1, p.t as usize - 1);
+    let mut signers = vec![who];
+    signers.extend(helpers.iter().take(m - 1).copied());
+    let mut kps = keys.key_packages.clone();
+    kps.insert(who, kp.clone());
+    let (nonces, commitments) = commit_all::<C>(rng, &kps, &signers)?;
+    let package = fc::SigningPackage::<C>::new(commitments, &p.message);
+    let nc = match nonces.get(&who) {
+        Some(n) => n,
+        None => return skip("internal"),
+    };
+    for (what, k) in &loaded {
+        check(
+            *k.min_signers() >= p.t,
+            &format!("a key package loaded from {what} never carries a threshold below the one the group was generated with"),
+            format!("min_signers >= {}", p.t),
+            format!("min_signers = {}", k.min_signers()),
+        )?;
+        must_refuse(
+            fc::round2::sign::<C>(&package, nc, k),
+            &format!("round2::sign by a signer that loaded its key package from {what}, for a package listing {m} participants of a group with threshold {}", p.t),
+        )?;
     }
     Ok(())
 }
